@@ -33,6 +33,17 @@ Theorem c09_model : forall st c top a, WInv st top -> top <= height (c_blk c) ->
   frozen_step (aobs_member st top a) (aobs_member (tx_state st c) (height (c_blk c)) a).
 Proof. exact tx_frozen_step. Qed.
 
+(* the true history, one step: an accepted UpdateMembers (no address twice in the add list, or the call is refused)
+   leaves every removed address without membership, gives every other added address the weight listed for it, and
+   touches nobody else (S_C09 clause 8 checks exactly this on the implementation) *)
+Theorem c09_update_members_pointwise : forall st blk sender add rem st' ms top,
+  Inv st top -> top <= height blk -> update_members st blk sender add rem = Ok (st', ms) ->
+  exists add' rem', validate_members add = Some add' /\ validate_args rem = Some rem' /\
+    has_dup (sort_members add') = false /\
+    forall a, m_cur (members st') a =
+      if existsb (N.eqb a) rem' then None
+      else match lassoc (sort_members add') a with Some w => Some w | None => m_cur (members st) a end.
+Proof. exact update_members_pointwise. Qed.
 Example c09_nonvacuous :
   exists st, instantiate (mkInit false (Some (Some 0)) [(Some 1, 5); (Some 2, 7)] cfg_default) (mkBlock 10 0) = Ok st /\
     let cs := [(mkBlock 12 0, 0, UpdateMembers [(Some 1, 9)] [Some 2], true);
@@ -48,3 +59,4 @@ Print Assumptions c09_member_at.
 Print Assumptions c09_total_at.
 Print Assumptions c09_sound.
 Print Assumptions c09_model.
+Print Assumptions c09_update_members_pointwise.
